@@ -36,10 +36,10 @@ type c07world struct {
 	plan *world.FaultPlan
 }
 
-func newC07World(rc *sim.RunCtx, seqValidation bool) (*c07world, error) {
+func newC07World(rc *sim.RunCtx, seqValidation bool, devKind string) (*c07world, error) {
 	cw := &c07world{}
 	cw.plan = world.NewFaultPlan(rc.Logf)
-	w, err := world.New(rc, world.Opts{DisableConcurrency: seqValidation,
+	w, err := world.New(rc, world.Opts{DisableConcurrency: seqValidation, DevKind: devKind,
 		WrapCache:  func(c cache.Client) cache.Client { return &world.FCache{Client: c, Plan: cw.plan} },
 		WrapSchema: func(c dschema.Client) dschema.Client { return &world.FSchema{Client: c, Plan: cw.plan} },
 	})
@@ -91,6 +91,12 @@ func runC07(rc *sim.RunCtx) {
 	// a function of the tape (concurrent validation is exercised by the other checks and by C17)
 	seqVal := true
 	profile := []string{"core", "core", "presence"}[t.Choose(3)]
+	// device: the direct one, or the real gnmiTarget in front of the in-process gNMI client (faults are then injected at the wire)
+	devKind := []string{"", "", "gnmi-proto", "gnmi-json_ietf"}[t.Choose(4)]
+	if profile == "presence" && devKind == "gnmi-proto" {
+		devKind = "gnmi-json" // KF-43: a presence container has no scalar form on the wire
+	}
+	rc.Probe("dev-" + devName(devKind))
 	si, err := world.LoadSchema()
 	if err != nil {
 		rc.HarnessErr("schema: %v", err)
@@ -118,13 +124,13 @@ func runC07(rc *sim.RunCtx) {
 	}
 	target := t.Choose(len(hist))
 	coldSchema := t.Bool(1, 3) // restart right before the target transaction so the schema index is cold
-	rc.Scenario("profile=%s history=%d target=#%d coldschema=%t", profile, len(hist), target, coldSchema)
+	rc.Scenario("profile=%s history=%d target=#%d coldschema=%t device=%s", profile, len(hist), target, coldSchema, devName(devKind))
 	for i, tx := range hist {
 		rc.Scenario("%d: %s", i, tx.Render())
 	}
 
 	// ---- reference run (fault free) with a counting pass on the target transaction ----
-	ref, err := newC07World(rc, seqVal)
+	ref, err := newC07World(rc, seqVal, devKind)
 	if err != nil {
 		rc.HarnessErr("world: %v", err)
 		return
@@ -205,15 +211,15 @@ func runC07(rc *sim.RunCtx) {
 	}
 	preSnapIdx := target - 1
 	for _, fl := range chosen {
-		if !c07one(rc, hist, target, coldSchema, seqVal, fl, refSnaps, preSnapIdx) {
+		if !c07one(rc, hist, target, coldSchema, seqVal, devKind, fl, refSnaps, preSnapIdx) {
 			return
 		}
 	}
 }
 
 // c07one replays the history in a fresh world with one fault in the target transaction, then retries.
-func c07one(rc *sim.RunCtx, hist []*TxSpec, target int, coldSchema, seqVal bool, fl c07fault, refSnaps []*c07snap, preIdx int) bool {
-	cw, err := newC07World(rc, seqVal)
+func c07one(rc *sim.RunCtx, hist []*TxSpec, target int, coldSchema, seqVal bool, devKind string, fl c07fault, refSnaps []*c07snap, preIdx int) bool {
+	cw, err := newC07World(rc, seqVal, devKind)
 	if err != nil {
 		rc.HarnessErr("world: %v", err)
 		return false
